@@ -300,6 +300,10 @@ func (g *GroupWorld) selectorFor(p *v1.Pod, s *Stream) {
 	switch style {
 	case 0:
 		p.Spec.NodeSelector = map[string]string{g.cfg.LabelKey: g.cfg.LabelValue}
+		if s.Chance(0.12) { // "affinity: {}" as templating tools emit it
+			p.Spec.Affinity = &v1.Affinity{}
+			g.w.stats.Shapes["pod:selector+empty-affinity"]++
+		}
 	case 1:
 		if s.Chance(0.3) {
 			p.Spec.Affinity = in("zzz", g.cfg.LabelValue)
@@ -673,10 +677,10 @@ var extTaintValues = []string{"", "0", "-5", "abc", "99999999999999999999", "922
 func (g *GroupWorld) operatorAction(s *Stream, prefer string) {
 	w := g.w
 	p := w.prof
-	act := s.Pick(int(p.PCordon*100), int(p.PCordon*60), int(p.PAnnotate*100), int(p.PAnnotate*50), int(p.PForceTaint*60), int(p.PExtTaint*80), 15, 10, 8, int(p.PAsgEdit*100), 8, 6, 5)
-	names := []string{"cordon", "uncordon", "annotate", "unannotate", "force-taint", "ext-taint", "foreign-taint", "remove-taint", "spot-loss", "asg-edit", "node-delete", "relabel", "ext-untaint"}
+	act := s.Pick(int(p.PCordon*100), int(p.PCordon*60), int(p.PAnnotate*100), int(p.PAnnotate*50), int(p.PForceTaint*60), int(p.PExtTaint*80), 15, 10, 8, int(p.PAsgEdit*100), 8, 6, 5, int(p.PResize*100), int(p.PForceTaint*25))
+	names := []string{"cordon", "uncordon", "annotate", "unannotate", "force-taint", "ext-taint", "foreign-taint", "remove-taint", "spot-loss", "asg-edit", "node-delete", "relabel", "ext-untaint", "resize", "force-taint-many"}
 	gate := map[string]string{"cordon": "cordon", "uncordon": "cordon", "annotate": "annotate", "unannotate": "annotate", "force-taint": "force-taint", "ext-taint": "ext-taint",
-		"foreign-taint": "foreign-taint", "remove-taint": "foreign-taint", "spot-loss": "spot", "asg-edit": "asg-edit", "node-delete": "node-delete", "relabel": "relabel", "ext-untaint": "ext-taint"}
+		"foreign-taint": "foreign-taint", "remove-taint": "foreign-taint", "spot-loss": "spot", "asg-edit": "asg-edit", "node-delete": "node-delete", "relabel": "relabel", "ext-untaint": "ext-taint", "resize": "operator", "force-taint-many": "force-taint"}
 	name := names[act]
 	n := g.pickNode(s, prefer)
 	v := s.U32()
@@ -828,6 +832,39 @@ func (g *GroupWorld) operatorAction(s *Stream, prefer string) {
 			w.onNodeDeleted(n.Name, false)
 			g.ev("op-node-delete")
 		}
+	case "resize": // a reservation/config rollout changes what every node of the group offers
+		f := []int64{2, 3, 1}[v%3]
+		d := []int64{1, 2, 2}[v%3]
+		g.cfg.NodeCPU = g.cfg.NodeCPU * f / d
+		g.cfg.NodeMem = g.cfg.NodeMem * f / d
+		if g.cfg.NodeCPU < 100 {
+			g.cfg.NodeCPU = 100
+		}
+		for _, x := range g.groupNodes() {
+			if len(x.Status.Allocatable) == 0 {
+				continue
+			}
+			c := x.DeepCopy()
+			c.Status.Allocatable[v1.ResourceCPU] = *resource.NewMilliQuantity(g.cfg.NodeCPU, resource.DecimalSI)
+			c.Status.Allocatable[v1.ResourceMemory] = *resource.NewQuantity(g.cfg.NodeMem, resource.BinarySI)
+			w.kube.putNode(c, "")
+		}
+		g.ev("op-resize")
+	case "force-taint-many": // an operator rotating several nodes at once
+		k := 0
+		for _, x := range g.groupNodes() {
+			if k >= 2+int(v%2) {
+				break
+			}
+			if hasTaintKey(x, forceTaint) || x.Spec.Unschedulable {
+				continue
+			}
+			c := x.DeepCopy()
+			c.Spec.Taints = append(c.Spec.Taints, v1.Taint{Key: forceTaint, Value: "rotate", Effect: v1.TaintEffectNoExecute})
+			w.kube.putNode(c, "")
+			k++
+		}
+		g.ev("op-force-taint-many")
 	case "relabel":
 		upd(func(c *v1.Node) {
 			if c.Labels[g.cfg.LabelKey] == g.cfg.LabelValue {
